@@ -134,8 +134,14 @@ func runIssCon(t *Toks) string {
 	if err != nil {
 		return "res=err"
 	}
+	// outside the alphabet / number range of the contract model (wf_contract) the document goes through encoding/json's
+	// escapes and a float64; K then compares everything but the hash, which S judges on its own
+	chash := hx(ie.ContractHash)
+	if c != nil && !issContractInDomain(c) {
+		chash = "unmodelled"
+	}
 	return fmt.Sprintf("res=ok chash=%s amount=%s token=%s nonce=%s entropy=%s precision=%d",
-		hx(ie.ContractHash), hx(ie.AssetAmount), hx(ie.TokenAmount), hx(ie.AssetBlindingNonce), hx(ie.AssetEntropy), ie.Precision)
+		chash, hx(ie.AssetAmount), hx(ie.TokenAmount), hx(ie.AssetBlindingNonce), hx(ie.AssetEntropy), ie.Precision)
 }
 
 // ---------- addresses ----------
@@ -386,6 +392,56 @@ func issGenPrecision(r *Rng) uint {
 	return uint(r.Intn(9))
 }
 
+// contracts outside the modelled domain: versions around and above 2^53 (the canonical document is written from a
+// float64) and strings that encoding/json escapes or repairs (quote, backslash, HTML characters, control characters,
+// multi-byte and invalid UTF-8, U+2028)
+func issWildContract(r *Rng, c *transaction.IssuanceContract) {
+	if r.Chance(70) {
+		switch r.Intn(8) {
+		case 0:
+			c.Version = 1<<53 - 1
+		case 1:
+			c.Version = 1 << 53
+		case 2:
+			c.Version = 1<<53 + 1
+		case 3:
+			c.Version = 1 << 63
+		case 4:
+			c.Version = ^uint(0)
+		case 5:
+			c.Version = 1<<53 + uint(r.Intn(4096))
+		case 6:
+			c.Version = uint(r.U64() | 1<<63)
+		default:
+			c.Version = uint(r.U64()>>uint(r.Intn(11))) | 1
+		}
+	}
+	if r.Chance(55) {
+		frags := []string{"\"", "\\", "<", ">", "&", "\n", "\t", "\x00", "\x1f", "\x7f", "é", "日本", "\u2028", "\u2029", "\xff", "\xc3", "\xe2\x82", "\xed\xa0\x80", "/", "\ufffd"}
+		pick := func(base string) string {
+			f := frags[r.Intn(len(frags))]
+			switch r.Intn(3) {
+			case 0:
+				return f + base
+			case 1:
+				return base + f
+			default:
+				return base[:len(base)/2] + f + base[len(base)/2:]
+			}
+		}
+		switch r.Intn(4) {
+		case 0:
+			c.Name = pick(c.Name)
+		case 1:
+			c.Ticker = pick(c.Ticker)
+		case 2:
+			c.Entity.Domain = pick(c.Entity.Domain)
+		default:
+			c.PubKey = pick(c.PubKey)
+		}
+	}
+}
+
 func genIssConCases(r *Rng, n int, w *bufio.Writer) {
 	for i := 0; i < n; i++ {
 		var b sb
@@ -394,7 +450,11 @@ func genIssConCases(r *Rng, n int, w *bufio.Writer) {
 		b.addn(issGenAmount(r))
 		b.addn(uint64(prec))
 		if r.Chance(75) {
-			issWriteContract(&b, issGenContract(r, prec))
+			c := issGenContract(r, prec)
+			if r.Chance(40) {
+				issWildContract(r, c)
+			}
+			issWriteContract(&b, c)
 		} else {
 			issWriteContract(&b, nil)
 		}
